@@ -983,6 +983,37 @@ def r96(ctx):
         raise AnalysisError("R-9.6: no extension propagate call found in extender")
 
 
+def r916(ctx, moves):
+    """A rejection reports its own verdict, not the stale status of the input path. Where a move
+    function returns `(flag, P, P.status)` and P can still be the path it was *given* (a parameter,
+    not re-bound on that route), some store `P.status = ...` must lie on every such route - else
+    the caller reads the status the old path got when it was accepted earlier ('ACC')."""
+    rid = "R-9.16"
+    n = 0
+    for name, f in moves.items():
+        fl = flow_of(f)
+        cfg = fl.cfg
+        params = {a.arg for a in f.args.posonlyargs + f.args.args + f.args.kwonlyargs}
+        for r in [x for x in walk_local(f) if isinstance(x, ast.Return) and isinstance(x.value, ast.Tuple) and len(x.value.elts) >= 3]:
+            P, st = r.value.elts[1], r.value.elts[-1]
+            if not (isinstance(P, ast.Name) and isinstance(st, ast.Attribute) and st.attr == "status" and isinstance(st.value, ast.Name) and st.value.id == P.id):
+                continue
+            if P.id not in params:
+                continue
+            at = cfg.node_of(r)
+            rds = fl.rd(P.id, at)
+            if not any(d.kind == "param" for d, sfx in rds if not sfx):
+                continue
+            n += 1
+            rebinds = [d.at for d in fl.defs if d.path == P.id and d.kind != "param" and d.at is not None]
+            stores = [d.at for d in fl.defs if d.path == P.id + ".status" and d.at is not None]
+            if cfg.reaches(cfg.entry, at, avoid=rebinds + stores, labels_excluded=("exc",)):
+                ctx.bad(rid, r, f"{name} can return `{short(r.value, 50)}` while `{P.id}` is still the path it was given and no verdict was stored on it on that route: the status reported is the one the old path carries from an earlier move - 'ACC' for a path accepted before - so a move that produced nothing is taken for an acceptance (the old path is renumbered and stored again)", construct=f"{name}: stale status of the input path returned")
+            else:
+                ctx.ok(rid, r, f"{name}: whenever `{P.id}` is still the input path at this return, a verdict was stored on it first")
+    return n
+
+
 def r914(ctx):
     """Acceptance gates of the shooting move. Every `return True, ...` of shoot() lies behind
     (must-pass-through on the CFG, alternatives allowed where the code has them):
@@ -1111,7 +1142,7 @@ def run(ctx):
     ctx.rule("R-9.12", "every engine can deliver maxlen frames (step budget = path.maxlen * subcycles), so the length tests of the moves see an unfinished trajectory (shared with C12 R-12.14)", floor=5)
     ctx.rule("R-9.11", "Metropolis length budget of shoot: int((L_old - 2)/xi) + 2, backward budget maxlen - 1, forward budget maxlen - len(back) + 1 (linear forms)", floor=3)
     ctx.rule("R-9.1", "every return of a move function pairs flag True with status 'ACC' and flag False with a non-'ACC' status", floor=30)
-    ctx.rule("R-9.2", "the job's path is replaced only under status == 'ACC'; treat_output numbers only new paths", floor=4)
+    ctx.rule("R-9.2", "the job's path is replaced only under status == 'ACC'; treat_output numbers only new paths", floor=3)
     ctx.rule("R-9.3", "frames reach engine sinks only as fresh copies; input paths are never extended in place", floor=13)
     ctx.rule("R-9.4", "shooting index drawn from [1, L-2]", floor=2)
     ctx.rule("R-9.5", "stop rule and end-point classifier agree on equality with an interface", floor=4)
@@ -1127,6 +1158,8 @@ def run(ctx):
     ctx.attempt(r911, ctx)
     ctx.rule("R-9.14", "acceptance gates of the shooting move: kick accepted, backward half on an allowed side, forward half at an interface, left side only if allowed, middle interface crossed unless both sides allowed - must-pass-through on the CFG", floor=5)
     ctx.attempt(r914, ctx)
+    ctx.rule("R-9.16", "a rejection reports its own verdict: `return flag, P, P.status` is never reached with P still the input path and no status stored on it", floor=1)
+    ctx.attempt(r916, ctx, moves)
     ctx.rule("R-9.15", "the length-based Metropolis rule is not switched off for paths reloaded at a restart: no branch on the restart tag (shared with C06 R-6.13)", floor=1)
     from .shared import restart_tag_not_tested
     ctx.attempt(restart_tag_not_tested, ctx, "R-9.15", ": a shooting move from a restarted path skips the random length budget, so a trial is accepted although the drawn number exceeds n_old / n_new")
@@ -1144,6 +1177,7 @@ def run(ctx):
 
 
 VARIANTS = [
+    B("c09-wf-no-segment-verdict-on-other-object", TIS, "        # No usable segments were generated.\n        trial_path.status = \"NSG\"", "        # No usable segments were generated.\n        new_segment.status = \"NSG\"", "R-9.16", control=True, why="seeded C09_h"),
     B("c09-restarted-paths-exempt-from-length-rule", TIS, '    if path.get_move() == "ld" or ens_set["tis_set"].get(', '    if path.get_move() in ("ld", "re") or ens_set["tis_set"].get(', "R-9.15", control=True, why="seeded C09_g"),
     B("c09-no-crossing-check", TIS, "    elif not trial_path.check_interfaces(interfaces)[-1][1]:\n        # No, we did not cross the middle interface:", "    elif False:\n        # No, we did not cross the middle interface:", "R-9.14", control=True),
     B("c09-forward-failure-ignored", TIS, "    if not success_forw:\n        trial_path.status = \"FTL\"", "    if not success_forw and False:\n        trial_path.status = \"FTL\"", "R-9.14"),
